@@ -155,7 +155,14 @@ def _ev(t, env, cache):
     if k in (z3.Z3_OP_EQ, z3.Z3_OP_IFF) if hasattr(z3, 'Z3_OP_IFF') else k == z3.Z3_OP_EQ:
         if isinstance(a[0], bool) or isinstance(a[1], bool):
             return bool(a[0]) == bool(a[1])
-        return close(a[0], a[1])
+        if close(a[0], a[1]):
+            return True
+        # a sum whose terms cancel: judge the residue against the size of the terms, not of the (tiny) result
+        scale = 0.0
+        for side in t.children():
+            if z3.is_app_of(side, z3.Z3_OP_ADD):
+                scale = max(scale, sum(abs(zeval(x, env, cache)) for x in side.children()))
+        return scale > 0 and abs(a[0] - a[1]) <= 1e-7 * scale
     if k == z3.Z3_OP_DISTINCT:
         return all(not close(x, y) for i, x in enumerate(a) for y in a[i + 1:])
     if k in (z3.Z3_OP_LE, z3.Z3_OP_LT, z3.Z3_OP_GE, z3.Z3_OP_GT):
